@@ -17,6 +17,13 @@
 (***************************************************************************)
 EXTENDS Naturals, Sequences
 
+\* Persistent faults: the caller's stream / callback may STAY broken - every invocation after the first failing one raises
+\* too, each time a different object.  "That same exception" is the FIRST one the environment raised: `injected` names it.
+\* H deliberately does not say "no caller-supplied code is invoked after the failure": the statement lets the library
+\* write while the exception unwinds, as long as the output stays a prefix (that fact is L_QuietUnwinding of Api.tla, an
+\* L-level invariant, and a drift note of the binding).  What the statement does forbid - something else reaching the
+\* caller in place of its own exception - is what a persistent fault turns every such late invocation into: a pending
+\* second construction step run in a `finally` (constructor), a flush after dispose (emitter), ...
 PassedThrough(reached, injected) == reached = injected
 \* "unchanged": what the caller can read off the object (type, arguments, attributes, text) is what it was when raised
 ContentUnchanged(c, c0) == c = c0
